@@ -21,7 +21,10 @@ def run(ctx):
                 "which a header can start: a live connection never holds more than 65 bytes and is ended once 65 header bytes have arrived "
                 "(fixed sweep, policy unslicers + real constraints, a subset also against the model chunk by chunk); (5) RemoteCopy attribute "
                 "slots, a fixed sweep: every constraint class x plain / Optional / ChoiceOf / Optional(ChoiceOf) as the attribute's constraint "
-                "in a stateSchema x position: an oversize body for that attribute is never buffered; "
+                "in a stateSchema x position: an oversize body for that attribute is never buffered; (6) RemoteCopy stateSchemas built with "
+                "the non-default AttributeDictConstraint options (ignoreUnknown x acceptUnknown) x nesting x attribute names inside / outside "
+                "the schema x value shape x pacing, a fixed sweep with a fixed witness: a value the schema does not admit is never buffered "
+                "(abandoning the connection is fine here; acceptUnknown=True alone declares no limit for unlisted names: nothing asserted); "
                 "non-trivial = distinct run in which at least one oversize body (or an endless header) was announced")
     ctx.assumptions = ["the schema bound B of a real constraint tree is computed by the harness from the constraint objects' public "
                        "attributes (maxLength, maxBytes); index tokens are bounded by RootUnslicer.maxIndexLength",
@@ -342,6 +345,7 @@ def real_constraints(ctx, I):
     choice_open_sweep(ctx, I)
     choice_admits_copyable(ctx, I)
     copyable_attribute_slots(ctx, I)
+    copyable_unknown_attribute_options(ctx, I)
     slot_alternation(ctx, I)
     schema_isolation(ctx, I)
     pb_index_tokens(ctx)
@@ -958,6 +962,121 @@ def copyable_attribute_slots(ctx, I):
                                              "%s, attribute 'a' %s%s: a %s token announcing %d bytes, which the constraint of attribute 'a' refuses (every limit "
                                              "<= 40 bytes), was buffered (%d bytes held, 1000-byte packets)"
                                              % (cname, site, attrpos, ", inside the OPEN that constraint admits" if with_open else "", hex(ty), size, hw), replay=rp)
+
+
+def copyable_unknown_attribute_options(ctx, I):
+    """RemoteCopy state schemas built with the NON-DEFAULT options of AttributeDictConstraint (ignoreUnknown / acceptUnknown, every
+    combination), the Copyable nested in a list / a dict value / a tuple, attribute names inside and outside the schema, the value a
+    sized token (or the OPEN of a container / unicode followed by one) announcing far more than the schema admits, prefix and body
+    delivered whole and in small chunks.  The rule is the property's: for an attribute the schema lists, its constraint is in force
+    under every option; for an attribute the schema does NOT list, the schema admits the value only with acceptUnknown=True and
+    ignoreUnknown=False (getAttrConstraint answers (True, None): no limit is declared, nothing is asserted there); with
+    ignoreUnknown=True (value to be dropped) or with neither option (Violation) the value is not admitted, so nothing of its body may be
+    held -- whether the receiver refuses it, skips it or abandons the connection (abandoning on the unchanged tree is the C02 finding
+    attrdict-ignore-unknown-drops-connection, not a C11 matter: bytes held stay small).  Fixed sweep, the fixed witness first."""
+    from foolscap.constraint import ByteStringConstraint, Optional
+    from foolscap import copyable
+    NAME = "c11.U"
+    quick = ctx.tier == "quick"
+    sig = "oracle/rejected-body-buffered/copyable-unknown-attribute"
+    values = [("STRING", lambda d: b"", STRING), ("LONGINT", lambda d: b"", LONGINT), ("LONGNEG", lambda d: b"", LONGNEG),
+              ("list[STRING]", lambda d: tok(OPEN, d) + S(b"list"), STRING), ("unicode", lambda d: tok(OPEN, d) + S(b"unicode"), STRING),
+              ("dict{k:STRING}", lambda d: tok(OPEN, d) + S(b"dict") + S(b"k"), STRING),
+              ("tuple(list[LONGINT])", lambda d: tok(OPEN, d) + S(b"tuple") + tok(OPEN, d + 1) + S(b"list"), LONGINT)]
+    sites = [("list-item", lambda: S(b"list")), ("dict-value", lambda: S(b"dict") + S(b"k")), ("tuple-item", lambda: S(b"tuple")),
+             ("list-in-list-item", None)]
+
+    def trial(ignore, accept, site, attr, vname, size, pchunk, bchunk, sent):
+        kw = {}
+        if ignore is not None:
+            kw["ignoreUnknown"] = ignore
+        if accept is not None:
+            kw["acceptUnknown"] = accept
+        schema = copyable.AttributeDictConstraint(("label", ByteStringConstraint(maxLength=10)),
+                                                  ("opt", Optional(ByteStringConstraint(maxLength=10), None)), **kw)
+        vopen, ty = [(f, t) for (n_, f, t) in values if n_ == vname][0]
+        depth = 0
+        if site == "list-in-list-item":
+            pre = tok(OPEN, 0) + S(b"list") + tok(OPEN, 1) + S(b"list")
+            depth = 2
+        else:
+            pre = tok(OPEN, 0) + dict((n_, f) for n_, f in sites)[site]()
+            depth = 1
+        pre += tok(OPEN, depth) + S(b"copyable") + S(NAME.encode())
+        depth += 1
+        known = attr.startswith("known")
+        if attr in ("unknown-after-known", "known-after-known"):
+            pre += S(b"label") + S(b"ok")
+        if attr == "unknown-after-unknown":
+            pre += S(b"zzz") + S(b"ok")     # a first unlisted attribute with a small value, then another one
+        pre += S(b"opt") if known else S(b"comment")
+        pre += vopen(depth)
+        admitted_unbounded = (not known) and bool(accept) and not ignore and attr != "unknown-after-unknown"
+        if attr == "unknown-after-unknown":
+            admitted_unbounded = bool(accept) and not ignore
+        hw, esc, abandoned, skip = 0, None, False, 0
+        try:
+            type("C11Unk", (copyable.RemoteCopy,), dict(copytype=NAME, stateSchema=schema))
+            p = I.RealBanana()
+            for i in range(0, len(pre), pchunk):
+                p.dataReceived(pre[i:i + pchunk])
+                hw = max(hw, len(p.buffer))
+            hw = 0          # (the prefix's tokens are all small; what is measured is the value that follows)
+            p.dataReceived(tok(ty, size))
+            hw = len(p.buffer)
+            left = min(size - 1, sent)
+            while left > 0:
+                n_ = min(bchunk, left)
+                p.dataReceived(b"y" * n_)
+                left -= n_
+                hw = max(hw, len(p.buffer))
+            abandoned, skip = bool(p.connectionAbandoned), p.skipBytes
+        except Exception as e:
+            esc = "%s: %s" % (type(e).__name__, e)
+        finally:
+            copyable.CopyableRegistry.pop(NAME, None)
+            copyable.debug_CopyableFactories.pop(NAME, None)
+            copyable.debug_RemoteCopyClasses.pop(NAME, None)
+        opts = "ignoreUnknown=%r, acceptUnknown=%r" % (ignore, accept)
+        ctx.case(["copyable-unknown-attribute", opts, site, attr, vname, size, pchunk, bchunk], nontrivial=not admitted_unbounded)
+        ctx.hist("copyable_unknown_attribute_options", opts)
+        ctx.hist("copyable_unknown_attribute_outcome", "admitted-without-limit" if admitted_unbounded else
+                 "abandoned" if abandoned else "refused-or-skipped")
+        rp = dict(options=opts, copyable=site, attribute=attr, value=vname, ty=ty, size=size, prefix_chunk=pchunk, body_chunk=bchunk,
+                  highwater=hw, prefix=list(pre))
+        if esc:
+            ctx.fail("oracle/exception-escaped", "exception escaped dataReceived (RemoteCopy, AttributeDictConstraint(%s)): %s" % (opts, esc), replay=rp)
+        elif hw > 65 and not admitted_unbounded:
+            ctx.fail(sig, "RemoteCopy with stateSchema AttributeDictConstraint(('label', bytes<=10), ('opt', Optional(bytes<=10)), %s) as a %s: "
+                     "attribute %r (%s), value %s: a %s token announcing %d bytes, which this schema does not admit (%s), was buffered: %d bytes "
+                     "held after %d body bytes in %d-byte packets (prefix in %d-byte packets; connection abandoned: %s, skipBytes %d)"
+                     % (opts, site, "opt" if known else "comment", attr, vname, hex(ty), size,
+                        "the attribute's constraint admits 10 bytes" if known else "the attribute is not listed and is to be %s" % ("ignored" if ignore else "refused"),
+                        hw, min(size - 1, sent), bchunk, pchunk, abandoned, skip), replay=rp)
+
+    # the fixed witness of the family: a size-bounded schema with ignoreUnknown=True, a listed attribute, then an unlisted one whose STRING
+    # value announces 50 MB and arrives in 100-byte packets after a byte-by-byte prefix
+    trial(True, None, "list-item", "unknown-after-known", "STRING", 50 * 1000 * 1000, 1, 100, 20000)
+    trial(True, None, "dict-value", "unknown-first", "list[STRING]", 2 ** 448 - 1, 1, 1000, 5000)
+    combos = [(True, None), (True, True), (True, False), (None, None), (False, False), (None, True), (False, True)]
+    attrs = ("unknown-first", "unknown-after-known", "unknown-after-unknown", "known-first", "known-after-known")
+    sizes = (200, 2 ** 448 - 1) if quick else (11, 66, 200, 1001, 10 ** 6, 2 ** 64, 2 ** 448 - 1)
+    k = 0
+    for ignore, accept in combos:
+        for site, _f in sites:
+            for attr in attrs:
+                for vname, _o, _t in values:
+                    for size in sizes:
+                        k += 1
+                        if quick:
+                            # one pacing per case, rotating through the pacings
+                            pacings = [[(10 ** 6, 1000), (1, 100), (3, 1), (7, 37)][k % 4]]
+                            if pacings[0][1] == 1 and size > 400:
+                                pacings = [(3, 13)]
+                        else:
+                            pacings = [(10 ** 6, 1000), (1, 100), (3, 13), (7, 37)]
+                        for pchunk, bchunk in pacings:
+                            trial(ignore, accept, site, attr, vname, size, pchunk, bchunk, 3000 if bchunk >= 13 else 400)
 
 
 def member_counts(ctx, I):
